@@ -2,9 +2,80 @@
 
 use crate::common::DistMode;
 use crate::metrology::Distance3;
-use crate::{Mesh, Point3, UnitVec3};
+use crate::{Mesh, Point3, UnitVec3, Vector3};
+use parry3d_f64::bounding_volume::Aabb;
+use parry3d_f64::query::PointQueryWithLocation;
+use parry3d_f64::shape::TrianglePointLocation;
+use std::f64::consts::{PI, TAU};
 
 impl Mesh {
+    /// The normal against which the side of the surface is judged for a test point whose closest
+    /// point on the mesh is `closest`, found at `location` on the triangle `tri_id`.
+    ///
+    /// In the interior of a face this is the face normal. On an edge or a vertex the closest point
+    /// search reports only one of the faces which meet there, and next to a sharp edge the normal
+    /// of a single face cannot tell on which side of the surface a point lies (the point can be in
+    /// front of one face and behind its neighbor). There the angle weighted pseudo-normal is used:
+    /// the sum of the normals of all faces touching the closest point, each weighted by the angle
+    /// the face spans at that point. The sign of its dot product with the offset vector is the sign
+    /// of the distance (Baerentzen and Aanaes, "Signed distance computation using the angle
+    /// weighted pseudonormal", 2005).
+    fn side_normal(
+        &self,
+        closest: &Point3,
+        tri_id: u32,
+        location: &TrianglePointLocation,
+    ) -> Vector3 {
+        let own = self.shape.triangle(tri_id);
+        let own_normal = own.normal().map_or(Vector3::zeros(), |n| n.into_inner());
+        if !matches!(
+            location,
+            TrianglePointLocation::OnVertex(_) | TrianglePointLocation::OnEdge(..)
+        ) {
+            return own_normal;
+        }
+
+        // All faces which touch the closest point, to within rounding
+        let tol = 1.0e-9 * own.local_aabb().extents().norm();
+        let reach = Vector3::repeat(tol);
+        let mut candidates = Vec::new();
+        self.shape
+            .qbvh()
+            .intersect_aabb(&Aabb::new(closest - reach, closest + reach), &mut candidates);
+
+        let mut sum = Vector3::zeros();
+        for id in candidates {
+            let tri = self.shape.triangle(id);
+            let (on_tri, at) = tri.project_local_point_and_get_location(closest, false);
+            if (on_tri.point - closest).norm() > tol {
+                continue;
+            }
+
+            // The angle the face spans at the closest point: its corner angle at a vertex, a half
+            // turn on an edge. The barycentric coordinates decide which, because projecting a point
+            // of an edge back onto the triangle can land marginally inside the face.
+            let on: Vec<usize> = match at.barycentric_coordinates() {
+                Some(bc) => (0..3).filter(|k| bc[*k] > 1.0e-9).collect(),
+                None => continue,
+            };
+            let angle = match on.len() {
+                1 => {
+                    let v = tri.vertices();
+                    let k = on[0];
+                    (v[(k + 1) % 3] - v[k]).angle(&(v[(k + 2) % 3] - v[k]))
+                }
+                2 => PI,
+                _ => TAU,
+            };
+
+            if let Some(n) = tri.normal() {
+                sum += n.into_inner() * angle;
+            }
+        }
+
+        sum
+    }
+
     /// Compute the deviation of a point from this mesh (this mesh is considered the reference) and
     /// return it as a Length Measurement object.
     ///
@@ -34,25 +105,29 @@ impl Mesh {
     ///
     /// ```
     pub fn measure_point_deviation(&self, point: &Point3, dist_mode: DistMode) -> Distance3 {
-        let closest = self.surf_closest_to(point);
+        let (projection, (tri_id, location)) = self
+            .shape
+            .project_local_point_and_get_location(point, self.is_solid);
+        let closest = projection.point;
+        let normal = self.shape.triangle(tri_id).normal().unwrap();
 
         // In both cases, the measurement point `b` will remain the test point and `a` will be the
         // where the reference point, what will change is the direction of the measurement
 
         let d = match dist_mode {
             DistMode::ToPoint => {
-                let v = point - closest.point;
+                let v = point - closest;
                 if v.norm() < 1e-6 {
-                    closest.normal
-                } else if closest.normal.dot(&v) > 0.0 {
+                    normal
+                } else if self.side_normal(&closest, tri_id, &location).dot(&v) > 0.0 {
                     UnitVec3::new_normalize(v)
                 } else {
                     -UnitVec3::new_normalize(v)
                 }
             }
-            DistMode::ToPlane => closest.normal,
+            DistMode::ToPlane => normal,
         };
 
-        Distance3::new(closest.point, *point, Some(d))
+        Distance3::new(closest, *point, Some(d))
     }
 }
